@@ -208,7 +208,9 @@ def api_export(df, reset, variant):
 
 def api_import(sg_df, variant):
     from cryocat import cryomotl
-    v = variant % 4
+    v = variant % 5
+    if v == 4:
+        return cryomotl.stopgap2emmotl(sg_df, update_coordinates=True).df       # judged against the updated list
     if v == 0:
         m = cryomotl.StopgapMotl()
         m.convert_to_motl(sg_df)
@@ -222,19 +224,25 @@ def api_import(sg_df, variant):
 
 def api_write(df, path, update, reset, variant):
     from cryocat import cryomotl
-    if variant % 2 == 0:
+    if variant % 3 == 0:
         m = cryomotl.StopgapMotl(df)
         m.write_out(path, update_coord=update, reset_index=reset)
         return m.df
-    m = cryomotl.emmotl2stopgap(df, path, update_coordinates=update, reset_index=reset)
+    if variant % 3 == 1:
+        m = cryomotl.emmotl2stopgap(df, path, update_coordinates=update, reset_index=reset)
+        return m.df
+    # no output path: the RETURNED object must hold the (updated) list
+    m = cryomotl.emmotl2stopgap(df, None, update_coordinates=update, reset_index=reset)
     return m.df
 
 
 def api_load(path, variant):
     from cryocat import cryomotl
-    if variant % 2 == 0:
+    if variant % 3 == 0:
         return cryomotl.StopgapMotl(path).df
-    return cryomotl.stopgap2emmotl(path).df
+    if variant % 3 == 1:
+        return cryomotl.stopgap2emmotl(path).df
+    return cryomotl.stopgap2emmotl(path, update_coordinates=True).df              # judged against the updated list
 
 
 def spelling():
@@ -275,7 +283,7 @@ class Runner:
             if not df.equals(keep) or list(df.index) != list(keep.index):
                 ctx.fail("C04_Renaming", "convert_to_sg_motl modified its input list", case, sig)
             return res
-        sg_df = motlutil.vary_index(build_sg_df(case["sgin"], g, rng), variant // 4)
+        sg_df = motlutil.vary_index(build_sg_df(case["sgin"], g, rng), variant // 5)
         res, err = core.call_guarded(api_import, sg_df, variant)
         if err is not None:
             ctx.fail("call_raises", "convert_to_motl: %s" % err, case, sig)
@@ -293,8 +301,10 @@ class Runner:
             compare_sg(ctx, got, case["sg"], g, fcase, fsig, what="" if later is None else
                        "result of an earlier conversion, judged after a later conversion of an equally long list: ")
         else:
-            compare_motl(ctx, got, case["back"], g, "C04_Renaming", fcase, fsig,
-                         "list converted from the STOPGAP table" + ("" if later is None else
+            updated = case["variant"] % 5 == 4
+            compare_motl(ctx, got, case["backu"] if updated else case["back"], g, "C04_UpdateCoord" if updated else "C04_Renaming",
+                         fcase, fsig, ("list converted from the STOPGAP table" + (" with update_coordinates" if updated else ""))
+                         + ("" if later is None else
                                                                      " (earlier result judged after a later conversion)"))
 
     def gamma_for(self, case):
@@ -308,7 +318,7 @@ class Runner:
         op = case["op"]
         name = op["name"]
         variant = case["variant"]
-        sig = {"op": name, "api": variant % 4 if name == "import" else variant % 2}
+        sig = {"op": name, "api": variant % 5 if name == "import" else variant % 3 if name in ("write", "load") else variant % 2}
         if "reset" in op:
             sig["reset"] = op["reset"]
         if "update" in op:
@@ -334,8 +344,9 @@ class Runner:
             if err is not None:
                 ctx.fail("call_raises", "loading a STOPGAP file: %s" % err, case, sig)
                 return
-            compare_motl(ctx, res, case["back"], g, "C04_FileRoundTrip", case, sig, "list loaded from a STOPGAP file",
-                         loose=True)
+            updated = variant % 3 == 2
+            compare_motl(ctx, res, case["backu"] if updated else case["back"], g, "C04_UpdateCoord" if updated else "C04_FileRoundTrip",
+                         case, sig, "list loaded from a STOPGAP file" + (" with update_coordinates" if updated else ""), loose=True)
         elif name == "write":
             df = motlutil.vary_index(build_motl_df(case["pre"], g, rng), variant // 2)
             path = os.path.join(ctx.workdir, "sgout_%d_%d.star" % (os.getpid(), self.n))
@@ -344,12 +355,15 @@ class Runner:
                 ctx.fail("call_raises", "write_out: %s" % err, case, sig)
                 return
             # the live object after the call holds the (possibly updated) list
-            compare_motl(ctx, res, case["rows"], g, "C04_UpdateCoord", case, sig, "list held after write_out")
+            compare_motl(ctx, res, case["rows"], g, "C04_UpdateCoord", case, sig,
+                         "list returned by emmotl2stopgap without an output path" if variant % 3 == 2 else "list held after write_out")
+            if variant % 3 == 2:
+                return
             if not os.path.exists(path):
                 ctx.fail("C04_FileWellFormed", "write_out wrote no file", case, sig)
                 return
             lines = su.file_lines(path)
-            back, lerr = core.call_guarded(api_load, path, variant // 2)
+            back, lerr = core.call_guarded(api_load, path, (variant // 2) % 2)
             loaded = {"ok": lerr is None, "n": 0, "cols": {f: [] for f in FIELDS14}}
             if lerr is None:
                 loaded["n"] = int(back.shape[0])
@@ -398,7 +412,7 @@ class Runner:
 
 def case_from_tr(tr, U, gseed, variant, pre=None):
     return {"kind": "tr", "U": U, "pre": pre if pre is not None else tr["pre"], "op": tr["op"], "rows": tr["rows"],
-            "sg": tr["sg"], "sgin": tr["sgin"], "back": tr["back"], "gseed": gseed, "variant": variant}
+            "sg": tr["sg"], "sgin": tr["sgin"], "back": tr["back"], "backu": tr["backu"], "gseed": gseed, "variant": variant}
 
 
 def replay(ctx, case):
